@@ -3,8 +3,9 @@
 # (never touches /repo; safe while other checks are running).
 P=$(readlink -f "$1"); shift
 D=$(mktemp -d /tmp/altrepo.XXXXXX)
+B=$(cd $(dirname $0)/..; pwd)/.build/alt-$(echo $D | tr / _)
 git -C /repo worktree add -q --detach $D HEAD || exit 2
-trap 'git -C /repo worktree remove --force '"$D"' 2>/dev/null' EXIT
+trap 'git -C /repo worktree remove --force '"$D"' 2>/dev/null; rm -rf '"$B"'' EXIT
 git -C $D apply "$P" || { echo "patch does not apply"; exit 2; }
 for id in "$@"; do
   out=$(cd /verif && VERIF_REPO=$D VERIF_ROOT=/verif/.build/alt-root ./check $id --tier ${VERIF_TIER_ALT:-quick} ${VERIF_EXTRA:-} 2>&1); rc=$?
